@@ -47,22 +47,36 @@ func (w *WaitGroup) InstanceVariables() *InstanceVariables {
 	return nil
 }
 
-func (w *WaitGroup) Add(n int) {
-	w.Native.Add(n)
+// Go panics when the counter of a WaitGroup drops below zero,
+// the panic is turned into an Elk error.
+func (w *WaitGroup) recoverNegativeCounter(err *Value) {
+	if r := recover(); r != nil {
+		*err = Ref(NewError(OutOfRangeErrorClass, fmt.Sprint(r)))
+	}
 }
 
-func (w *WaitGroup) Remove(n int) {
+func (w *WaitGroup) Add(n int) (err Value) {
+	defer w.recoverNegativeCounter(&err)
+	w.Native.Add(n)
+	return Undefined
+}
+
+func (w *WaitGroup) Remove(n int) (err Value) {
+	defer w.recoverNegativeCounter(&err)
 	for range n {
 		w.Native.Done()
 	}
+	return Undefined
 }
 
 func (w *WaitGroup) Start() {
 	w.Native.Add(1)
 }
 
-func (w *WaitGroup) End() {
+func (w *WaitGroup) End() (err Value) {
+	defer w.recoverNegativeCounter(&err)
 	w.Native.Done()
+	return Undefined
 }
 
 func (w *WaitGroup) Wait() {
